@@ -80,6 +80,12 @@ fn compare(c: &mut Case, t: &TextArchive, m: &Model, keys: &[String], hist: &str
 
 /// Run a history on a fresh archive, comparing with the model after every step.
 pub fn run_history(c: &mut Case, ops: &[TOp], keys: &[String], roundtrip: bool) {
+    run_history_from(c, ops, keys, roundtrip, &[])
+}
+
+/// `parsed_start`: when non-empty, the history starts from an archive that was built with these
+/// entries, serialized and parsed back (so its dirty flag must be clear).
+pub fn run_history_from(c: &mut Case, ops: &[TOp], keys: &[String], roundtrip: bool, parsed_start: &[(String, String)]) {
     let mut t = TextArchive::new(TextArchiveFormat::Unicode, Endian::Little);
     let mut m = Model::default();
     if t.is_dirty() {
@@ -87,6 +93,34 @@ pub fn run_history(c: &mut Case, ops: &[TOp], keys: &[String], roundtrip: bool) 
         return;
     }
     let mut hist = String::new();
+    if !parsed_start.is_empty() {
+        for (k, v) in parsed_start {
+            t.set_message(k, v);
+            m.set(k, v);
+        }
+        let re = c.lib("serialize + from_bytes (start state)", || -> Result<TextArchive, String> {
+            let b = t.serialize().map_err(|e| e.to_string())?;
+            TextArchive::from_bytes(&b, TextArchiveFormat::Unicode, Endian::Little).map_err(|e| e.to_string())
+        });
+        match re {
+            Some(Ok(p)) => t = p,
+            Some(Err(e)) => {
+                c.fail("parse", "start_state_roundtrip", format!("cannot serialize and re-parse the start state {:?}: {}", parsed_start, e));
+                return;
+            }
+            None => return,
+        }
+        m.dirty = false;
+        c.sit("history_from_parsed_archive");
+        hist.push_str(&format!("<parsed {:?}>", parsed_start));
+        if !compare(c, &t, &m, keys, &hist, false, false) {
+            return;
+        }
+        if t.is_dirty() {
+            c.fail("dirty", "parsed_dirty", "a freshly parsed archive reports is_dirty() == true".to_string());
+            return;
+        }
+    }
     let mut had_delete = false;
     let mut readd = false;
     for op in ops {
@@ -163,7 +197,7 @@ pub fn run_history(c: &mut Case, ops: &[TOp], keys: &[String], roundtrip: bool) 
     }
 }
 
-pub const REQUIRED: &[&str] = &["delete_then_readd", "delete", "exhaustive_histories", "random_histories"];
+pub const REQUIRED: &[&str] = &["delete_then_readd", "delete", "exhaustive_histories", "random_histories", "history_from_parsed_archive"];
 
 pub fn run(cx: &mut Ctx) {
     cx.require(REQUIRED);
@@ -235,6 +269,32 @@ pub fn run(cx: &mut Ctx) {
             });
         }
     }
+    // the same operations on an archive that was parsed from bytes (dirty flag clear at the start)
+    let start: Vec<(String, String)> = vec![("a".into(), "x".into()), ("b".into(), "\n".into())];
+    let plen = if cfg!(miri) { 1 } else if cx.a.quick() { 3 } else { 4 };
+    for len in 1..=plen {
+        let n = nops.pow(len as u32);
+        for chunk in 0..((n + 323) / 324) {
+            let ops_ref = &ops;
+            let keys_ref = &keys;
+            let start_ref = &start;
+            cx.case("exhaustive_histories_from_parsed", |c| {
+                let mut count = 0u64;
+                for code in (chunk * 324)..((chunk + 1) * 324).min(n) {
+                    let mut h: Vec<TOp> = Vec::with_capacity(len);
+                    let mut x = code;
+                    for _ in 0..len {
+                        h.push(ops_ref[x % nops].clone());
+                        x /= nops;
+                    }
+                    run_history_from(c, &h, keys_ref, false, start_ref);
+                    count += 1;
+                }
+                c.eval(count);
+                c.stat_add("exhaustive_histories_from_parsed", count as f64);
+            });
+        }
+    }
     // random
     let n = cx.a.n(20_000, 1_500_000);
     for _ in 0..n {
@@ -266,7 +326,12 @@ pub fn run(cx: &mut Ctx) {
             }
             c.nontrivial(fp);
             c.eval(len as u64);
-            run_history(c, &h, &keys, true);
+            if rng.bool() {
+                let start: Vec<(String, String)> = keys.iter().take(rng.range(1, nk)).map(|k| (k.clone(), (0..rng.range(0, 5)).map(|_| *rng.pick(&alphabet)).collect())).collect();
+                run_history_from(c, &h, &keys, true, &start);
+            } else {
+                run_history(c, &h, &keys, true);
+            }
             c.sample("random_history", || {
                 J::obj(vec![
                     ("keys", J::U(nk as u64)),
